@@ -4,12 +4,13 @@
 (*   ampycloud actions : run(d, p), demo (canonical demo data), tmpok /       *)
 (*                       tmpraise (the temporary-seed helper, body returning   *)
 (*                       or raising)                                          *)
-(*   user actions      : seed(v) (np.random.seed), draw (np.random.random)    *)
+(*   user actions      : seed(v) (np.random.seed), draw (np.random.random),   *)
+(*                       gauss (np.random.normal)                             *)
 (* C09: an ampycloud action never changes the random state; the result of     *)
 (* run(d, p) is a function of (d, p) alone.                                   *)
 EXTENDS Integers, Sequences, FiniteSets
 AmpyActs == {"run", "demo", "tmpok", "tmpraise"}
-UserActs == {"seed", "draw"}
+UserActs == {"seed", "draw", "gauss"}      \* gauss: np.random.normal draws (an odd count leaves a cached deviate in the state)
 NoResult == -1
 (* property clauses on an observed step: rb / ra = digests of the random state before / after *)
 C09_RngUntouched(e) == e.act \in AmpyActs => e.ra = e.rb
